@@ -15,7 +15,7 @@ import (
 func init() {
 	Register("C13", &Info{
 		Run:   runC13,
-		Quick: 9000, Thor: 300000,
+		Quick: 9000, Thor: 1200000,
 		Rule: "a world = one fingerprint (every parrot by stratum, randomized, generated specs, fingerprinted copies; HelloGolang with Config version bounds left at zero or set explicitly) with a caller Config that may carry its own MinVersion/MaxVersion/ALPN/curves or was used before by a connection of another fingerprint; against (a) the repository or std server capped at each version 1.0-1.3, (b) the reference server acting as a legacy server that negotiates from legacy_version only and ignores supported_versions, at 1.0 / 1.1 / 1.2, (c) the reference server negotiating TLS 1.2 or lower with the RFC 8446 downgrade sentinel in its random; oracle: whenever the client completes, the negotiated version is one its ON-WIRE hello advertised - a member of supported_versions when that extension is present, otherwise within [spec minimum, legacy_version]; with the sentinel and TLS 1.3 on offer the client must abort; non-trivial = the server negotiated (or tried) a version below the client's maximum; distinct = (fingerprint, server kind, version, sentinel)",
 		Assumptions: []string{"the spec minimum of a parrot is read from UTLSIdToSpec (TLSVersMin, or the lowest supported_versions entry, or TLS 1.0)"},
 		Real:        []string{"utls client from /repo", "utls or std server for (a)"},
